@@ -338,6 +338,21 @@ func runC01(c *kit.Ctx) {
 		}
 	}
 
+	// every attempt of SendRPC is routed again: no way from one send to the next without resolving
+	if sr := p.Func("", "client", "SendRPC"); sr != nil {
+		for _, s2 := range kit.Calls(sr, kit.M("", "*client", "sendRPCToRegionClient")) {
+			e := kit.PathFrom(s2.(ssa.Instruction), kit.PathQuery{
+				Target: func(in ssa.Instruction) bool { return in == s2.(ssa.Instruction) },
+				Stop: func(in ssa.Instruction) bool {
+					cc, ok := in.(*ssa.Call)
+					return ok && kit.CalleeName(cc) == kit.M("", "*client", "getRegionAndClientForRPC")
+				},
+			})
+			c.Check(e == nil, sr, "every-attempt-resolves", s2.Pos(), "between two sends the region is resolved again", "a retry can be sent to the connection and region of the previous attempt without consulting the location cache again: after a split, merge or move during the back-off the request goes to the old region/server: "+c.BlockPath(e))
+		}
+	}
+	// a region marked unavailable is waited for even if it still has a connection (shared with C17.R3)
+	retryLoopsWait(c)
 	discoverersDetachOverlaps(c)
 
 	// ---- R3 ---------------------------------------------------------------
